@@ -175,8 +175,12 @@ def check_into(run, prop, tier, ad):
         else:
             obs_t.append(t)
     if len(obs_t) < len(traces) // 2:
-        raise common.MachineryError(f"most random configurations could not be built: "
-                                    f"{run.cov['not_observable'][:2]}")
+        # single unbuildable configurations are C19's business; when MOST in-domain configurations
+        # cannot even be built or elaborated the property cannot hold for them either
+        run.report(f"unbuildable-majority:{ad.module}",
+                   f"{len(traces) - len(obs_t)} of {len(traces)} in-domain configurations of {ad.module} "
+                   f"could not be built/elaborated, e.g. {run.cov['not_observable'][:1]}",
+                   {"examples": run.cov["not_observable"][:5]})
     fails = tracecheck.validate(ad.module, ad.prefix, obs_t, run, "random traces (leg C)")
     report_failures(run, ad, obs_t, fails, "random")
     for t in obs_t:
